@@ -747,8 +747,14 @@ func (r *Relay) disconnected(n network.Network, c network.Conn) {
 	r.constraints.cleanupPeer(p)
 	r.mx.Unlock()
 
-	if ok && r.metricsTracer != nil {
-		r.metricsTracer.ReservationClosed(1)
+	if ok {
+		// The peer may still hold a limited (relayed) connection to us, in
+		// which case the connection manager keeps its tags: the reservation is
+		// gone, so must be its tag.
+		r.host.ConnManager().UntagPeer(p, "relay-reservation")
+		if r.metricsTracer != nil {
+			r.metricsTracer.ReservationClosed(1)
+		}
 	}
 }
 
